@@ -102,7 +102,12 @@ func main() {
 		fs.Parse(os.Args[2:])
 		c := newCheck(*prop, "quick", *seed, &Env{Sites: map[int]Site{}})
 		os.MkdirAll(*out, 0o755)
-		for i, p := range c.randomPlans(*wave, *n) {
+		plans := c.randomPlans(*wave, *n)
+		if *wave < 0 {
+			// development aid: the fixed (regression + systematic) plans instead
+			plans = c.fixedPlans()
+		}
+		for i, p := range plans {
 			b, _ := json.Marshal(p)
 			os.WriteFile(filepath.Join(*out, fmt.Sprintf("%s-%d.json", *prop, i)), b, 0o644)
 		}
